@@ -589,7 +589,7 @@ def model_line(case, lay, pyframe, prior):
 def run(ctx):
     impl = Impl()
     cases, outs, lines = [], [], []
-    nconf = ctx.n(800, 25000)
+    nconf = ctx.n(1500, 25000)
     for _ in range(nconf):
         cfg = None
         while cfg is None:
